@@ -442,7 +442,8 @@ def optimize_base_stock_levels(num_nodes=None, node_order_in_system=None, node_o
 			S_star[j] = x[opt_S_index]
 		else:
 			# Yes -- use specified S.
-			S_star[j] = S[j]
+			# (S is indexed by the original node indices; j is the internal, re-indexed stage number.)
+			S_star[j] = S[next(n_ind for n_ind, new_ind in old_to_new_dict.items() if new_ind == j)]
 		C_star[j] = C[j, find_nearest(x, S_star[j], True, index_x)[0]]
 
 		# Calculate C_bar
